@@ -234,6 +234,9 @@ MUTANTS = [
     ('C12', 'revert-connectless-disconnect', ('revert', 'c71db07'), 'C12.a'),
     ('C12', 'revert-send-error-discards-input', ('revert', '35da0df'), 'C12.g'),
     ('C10', 'revert-preen-silent', ('revert', '21c361f'), 'C10.f'),
+    ('C13', 'revert-client-upgrade-offer', ('revert', '23ef94d'), 'C13.c'),
+    ('C13', 'revert-headerless-framing', ('revert', '1f5826a'), 'C13.e'),
+    ('C13', 'revert-bodiless-statuses', ('revert', 'bf60f93'), 'C13.e'),
 ]
 
 # behaviour-preserving edits: the check of the property must stay silent
